@@ -55,8 +55,8 @@ def ndtri(u):
 
 # --------------------------------------------------------------------------------------------------
 def _exe(ctx):
-    c = [p for p in glob.glob(os.path.join(ctx.get("libdir") or "", "hz_c18_*")) if not p.endswith(".tmp")]
-    return c[0] if c else None
+    c = [p for p in glob.glob(os.path.join(ctx.get("libdir") or "", "hz_c18_*")) if os.access(p, os.X_OK) and "." not in os.path.basename(p)]
+    return max(c, key=os.path.getmtime) if c else None
 
 
 def _run_harness(exe, reqs):
